@@ -67,11 +67,14 @@ structure Obs where
   dom : Option (List Byte)                 -- path behind ds.domaindirfd
   usr : Option (List Byte)                 -- path behind ds.userdirfd
   gf : Option (List Byte)                  -- path of the filterconf that getfile() opened
+  gg : Option (List Byte)                  -- the same for a lookup with userconf_global
   opened : List (List Byte × List Byte)    -- (directory path, name) of every openat(fd, name)
 
 def joinPath (d n : List Byte) : List Byte := d ++ [SLASH] ++ n
 
 def filterconf : List Byte := [102, 105, 108, 116, 101, 114, 99, 111, 110, 102]
+/-- "control" -/
+def controlDir : List Byte := [99, 111, 110, 116, 114, 111, 108]
 
 /-- `ddPath`/`dd`: the domain directory users/cdb names for the domain (none: the domain is not in
 users/cdb, or its directory cannot be opened); `benign`: no error was injected, i.e. every answer
@@ -86,6 +89,9 @@ def checkObs (t : DirTree) (dd : Option (Nat × List Byte)) (inCdb benign : Bool
     "fails confined (the user directory descriptor is not an entry of the domain directory)"
   else if o.gf.any (fun g => g ≠ joinPath ddPath filterconf ∧ o.usr.all (fun u => g ≠ joinPath u filterconf)) then
     "fails confined (configuration read from outside the domain directory)"
+  else if o.gg.any (fun g => g ≠ joinPath ddPath filterconf ∧ g ≠ joinPath controlDir filterconf ∧
+      o.usr.all (fun u => g ≠ joinPath u filterconf)) then
+    "fails confined (configuration read from outside the domain and control directories)"
   else if !benign then "holds (error paths: confinement only)"
   else if !inCdb then
     (if SLASH ∈ loc ∨ o.r = 5 ∨ (o.r = 0 ∧ !plainName loc) then "holds" else "fails domain-not-in-users/cdb must give 5")
